@@ -96,6 +96,13 @@ def timeUUIDWith (t clk : Nat) (nd : List UInt8) : List UInt8 :=
 def stampV4 (u : List UInt8) : List UInt8 :=
   (u.set 6 ((byteAt u 6 &&& 0x0F) ||| 0x40)).set 8 ((byteAt u 8 &&& 0x3F) ||| 0x80)
 
+/-- `RandomUUID()` as a function of the bytes `rand.Reader` can still deliver: `io.ReadFull(rand.Reader, u[:])`
+    fails unless 16 bytes arrive (then `u`, partly filled and NOT stamped, is returned with the error — and
+    `MustRandomUUID` panics); otherwise the first 16 bytes are stamped -/
+def randomUUID (avail : List UInt8) : Bool × List UInt8 :=
+  if 16 ≤ avail.length then (true, stampV4 (avail.take 16))
+  else (false, avail ++ List.replicate (16 - avail.length) 0)
+
 /-! ### time ↔ timestamp -/
 
 /-- `time.Date(1582, October, 15, 0,0,0,0, UTC).Unix()` -/
@@ -165,6 +172,34 @@ def cassLe (u v : List UInt8) : Bool :=
   if rfcTimestamp u < rfcTimestamp v then true
   else if rfcTimestamp v < rfcTimestamp u then false
   else sLexLe (u.drop 8) (v.drop 8)
+
+/-! A second formulation of the same order: Cassandra 3.x / 4.x `TimeUUIDType.compareCustom`, which works on two
+    Java `long`s per value instead of bytes (transliterated as recalled; `C19_cass_java_agree`: equal to `cassLe`
+    on version-1 values):
+
+      long msb1 = reorderTimestampBytes(b1.getLong(0)), msb2 = …;
+      int c = Long.compare(msb1, msb2);  if (c != 0) return c;
+      return Long.compare(signedBytesToNativeLong(b1.getLong(8)), signedBytesToNativeLong(b2.getLong(8)));
+      reorderTimestampBytes(x)  = (x << 48) | ((x << 16) & 0xFFFF00000000L) | (x >>> 32)
+      signedBytesToNativeLong(x) = x ^ 0x0080808080808080L                                          -/
+
+/-- `ByteBuffer.getLong(off)`: 8 bytes big-endian, as the unsigned 64-bit pattern of the `long` -/
+def getLong (u : List UInt8) (off : Nat) : Nat := be ((u.drop off).take 8)
+
+/-- the value of a Java `long` with this 64-bit pattern (two's complement) -/
+def toSigned64 (n : Nat) : Int := if n < 2 ^ 63 then (n : Int) else (n : Int) - 2 ^ 64
+
+def reorderTimestampBytes (x : Nat) : Nat :=
+  (x <<< 48) % 2 ^ 64 ||| ((x <<< 16) &&& 0xFFFF00000000) ||| (x >>> 32)
+
+def signedBytesToNativeLong (x : Nat) : Nat := x ^^^ 0x0080808080808080
+
+/-- `compareCustom(u, v) <= 0` -/
+def javaLe (u v : List UInt8) : Bool :=
+  let m1 := toSigned64 (reorderTimestampBytes (getLong u 0))
+  let m2 := toSigned64 (reorderTimestampBytes (getLong v 0))
+  if m1 < m2 then true else if m2 < m1 then false
+  else decide (toSigned64 (signedBytesToNativeLong (getLong u 8)) ≤ toSigned64 (signedBytesToNativeLong (getLong v 8)))
 
 /-- the 36-character / hyphenated language: hex digit value, case-insensitive -/
 def isHex (c : Char) : Bool :=
